@@ -89,9 +89,19 @@ const c08Name = "S"
 
 var c08Families = []string{"kirkpatrick", "suppapitnarm", "averaged"}
 
+// the alias translator also walks the two test models the shipped Dumb*Annealer configurations use
+var c08AliasOnlyFamilies = []string{"kirkpatrick+dumb", "suppapitnarm+modumb"}
+
 func c08BuildAnnealer(family string, n int, t0, cf float64) (annealing.Annealer, error) {
-	mi := interpreter.NewModelConfigInterpreter().Interpret(&data.ModelConfig{
-		Type: "CatchmentModel", Parameters: parameters.Map{"DataSourcePath": c08DataSource}})
+	modelConfig := &data.ModelConfig{Type: "CatchmentModel", Parameters: parameters.Map{"DataSourcePath": c08DataSource}}
+	objective := "SedimentProduction"
+	switch family {
+	case "kirkpatrick+dumb":
+		modelConfig, objective, family = &data.ModelConfig{Type: "DumbModel"}, "ObjectiveValue", "kirkpatrick"
+	case "suppapitnarm+modumb":
+		modelConfig, family = &data.ModelConfig{Type: "MultiObjectiveDumbModel"}, "suppapitnarm"
+	}
+	mi := interpreter.NewModelConfigInterpreter().Interpret(modelConfig)
 	if mi.Errors() != nil {
 		return nil, mi.Errors()
 	}
@@ -102,7 +112,7 @@ func c08BuildAnnealer(family string, n int, t0, cf float64) (annealing.Annealer,
 	switch family {
 	case "kirkpatrick":
 		at = data.Kirkpatrick
-		params["DecisionVariable"] = "SedimentProduction"
+		params["DecisionVariable"] = objective
 		params["OptimisationDirection"] = "Minimising"
 	case "suppapitnarm":
 		at = data.Suppapitnarm
@@ -576,7 +586,7 @@ func runC08(args []string) {
 		return
 	}
 	// (1) alias translator
-	for _, fam := range c08Families {
+	for _, fam := range append(append([]string{}, c08Families...), c08AliasOnlyFamilies...) {
 		c08AliasFamily(fam)
 	}
 	// (2) AST fact + cwd watcher
